@@ -87,6 +87,11 @@ structure WSt where
   openExempt : List Nat := []         -- streams whose HEADERS were already in the codec when a GOAWAY was queued for us
   apiResets : List (Nat × Nat) := []  -- streams the application reset explicitly, with the number of their
                                       -- DATA frames that were already in the codec's write buffer
+  -- C09: the class of the frame the peer has just injected, and what we have sent since
+  c09 : Option (String × Nat) := none
+  c09Goaway : Bool := false           -- a GOAWAY with an error code
+  c09Rst : Bool := false              -- RST_STREAM for the stream concerned
+  c09Pong : Bool := false             -- we answered the probe PING that followed the injection
   deriving Repr
 
 def WSt.get (w : WSt) (id : Nat) : Option Str := w.strs.find? (·.id = id)
